@@ -558,3 +558,30 @@ def crafted_variants(frec, rng):
                 out.append(("block %d first filter id = 0x22 (unknown), CRC fixed" % bi, n, bytes(b)))
     # keep only real changes
     return [(w, fld, v) for (w, fld, v) in out if v != d]
+
+
+# ----------------------------------------------------------------------------------------------------------------
+# damaged Stream Padding (length not a multiple of four, non-zero byte inside): must be rejected with LZMA_CONCATENATED
+# ----------------------------------------------------------------------------------------------------------------
+
+def padding_variants(frec):
+    """Returns [(description, data, region_start, region_end)] for an .xz file record: its Streams re-assembled with bad
+    Stream Padding after the last Stream and between the first two Streams (a single-Stream file gets a copy of itself as
+    second Stream). region = the byte range of the damaged padding."""
+    if frec["fmt"] != "xz":
+        return []
+    d = frec["data"]
+    streams = [d[s:e] for (s, e, _) in frec["units"]]
+    out = []
+    bad_pads = [(b"\0" * k, "%d zero bytes" % k) for k in (1, 2, 3, 5, 6, 7)]
+    bad_pads += [(b"\0\1\0\0", "4 bytes with a non-zero byte at offset 1"), (b"\0\0\0\0\0\0\1\0", "8 bytes with a non-zero byte at offset 6"),
+                 (b"\0\0\0\1", "4 bytes with a non-zero byte at offset 3")]
+    body = b"".join(s + b"\0" * 4 for s in streams[:-1]) + streams[-1]
+    for (pad, what) in bad_pads:
+        out.append(("Stream Padding at EOF: " + what, body + pad, len(body), len(body) + len(pad)))
+    first = streams[0]
+    rest = streams[1:] if len(streams) > 1 else [streams[0]]
+    tail = b"".join(s + b"\0" * 4 for s in rest[:-1]) + rest[-1]
+    for (pad, what) in bad_pads:
+        out.append(("Stream Padding between Streams: " + what, first + pad + tail, len(first), len(first) + len(pad)))
+    return out
